@@ -93,18 +93,64 @@ def setup(common=None):
 
     conts = []
     seen_ids = set()
+
+    def _isc(v):
+        return type(v) in (dict, list, set) or type(v).__name__ == "OrderedDict"
+
+    def _take(label, v):
+        if _isc(v) and id(v) not in seen_ids:
+            seen_ids.add(id(v))
+            conts.append((label, v, v.copy()))
+
+    def _own_class(o):
+        return getattr(type(o), "__module__", "").split(".")[0] == "unyt"
+
     for name, mod in sorted(_sys.modules.items()):
         if not (name == "unyt" or name.startswith("unyt.")) or name.startswith("unyt.tests") or mod is None:
             continue
         for k, v in sorted(vars(mod).items(), key=lambda kv: kv[0]):
-            if type(v) in (dict, list, set) or type(v).__name__ == "OrderedDict":
-                if id(v) in seen_ids or k.startswith("__"):
-                    continue
-                seen_ids.add(id(v))
-                conts.append((name + "." + k, v, v.copy()))
+            if k.startswith("__"):
+                continue
+            if _isc(v):
+                _take(name + "." + k, v)
+                # objects of the library kept in module-level dicts (e.g. the built-in unit systems): their own containers
+                if isinstance(v, dict) and len(v) < 200:
+                    for k2, o in list(v.items()):
+                        if _own_class(o) and hasattr(o, "__dict__"):
+                            for k3, w in list(vars(o).items()):
+                                _take(f"{name}.{k}[{k2!r}].{k3}", w)
+            elif isinstance(v, type) and getattr(v, "__module__", "") == name:
+                # class-level containers (a memo kept on a class is process-wide state too)
+                for k2, w in list(vars(v).items()):
+                    if not k2.startswith("__"):
+                        _take(f"{name}.{k}.{k2}", w)
+            elif _own_class(v) and hasattr(v, "__dict__") and not isinstance(v, np.ndarray):
+                for k2, w in list(vars(v).items()):
+                    _take(f"{name}.{k}.{k2}", w)
     _U["containers"] = conts
     _U["ns_parts"] = _nsparts()
     _U["ns_pristine"] = _nsdig()
+
+
+def _globals_snapshot():
+    """Current contents of every process-wide container of the library (cheap shallow copies)."""
+    return [v.copy() for _n, v, _s in _U["containers"]]
+
+
+def _globals_restore(snap):
+    """Put every process-wide container back to `snap`: the observation must not be the one that seeds a memo."""
+    for (_n, obj, _s), old in zip(_U["containers"], snap):
+        try:
+            # big tables (name alternatives, the default registry's dicts): length only - a memo grows
+            same = len(obj) == len(old) and (len(old) >= 500 or obj == old)
+        except Exception:  # noqa: BLE001
+            same = False
+        if not same:
+            if isinstance(obj, list):
+                obj[:] = old
+            else:
+                obj.clear()
+                obj.update(old)
 
 
 def _clear_lru():
@@ -132,11 +178,25 @@ def _rows(reg):
     return out
 
 
+NUM_SYS = ("mks", "cgs")
+NUM_TO = ("km",)
+
+
 def _digest(reg):
-    """What `reg` resolves for each probe string, from the same state each (dicts restored)."""
+    """What `reg` resolves for each probe string, from the same state each (dicts restored), and NUMBERS computed
+    through it: 1 km in the built-in unit systems, 1 m -> in_mks() -> to(name)."""
     Unit = _U["Unit"]
+    uq = _U["uq"]
     lut, cache = reg.lut, reg._unit_object_cache
     s_lut, s_cache, s_id = dict(lut), dict(cache), reg._unit_system_id
+
+    def back():
+        if len(lut) != len(s_lut) or len(cache) != len(s_cache):
+            lut.clear()
+            lut.update(s_lut)
+            cache.clear()
+            cache.update(s_cache)
+
     out = []
     for p in PROBES:
         try:
@@ -145,13 +205,26 @@ def _digest(reg):
             out.append({"k": "unit", "s": _rat(u.base_value), "own": u.registry is reg or u.registry.lut is reg.lut})
         except Exception:  # noqa: BLE001
             out.append({"k": "raise"})
-        if len(lut) != len(s_lut) or len(cache) != len(s_cache):
-            lut.clear()
-            lut.update(s_lut)
-            cache.clear()
-            cache.update(s_cache)
+        back()
+    num = []
+    for sysn in NUM_SYS:
+        try:
+            x = uq(1.0, "km", registry=reg).in_base(sysn)
+            # ref: what reg's OWN TABLE gives for the unit the result carries (expression path: no string memo involved)
+            ref = Unit(x.units.expr, registry=reg).base_value
+            num.append({"k": "num", "v": _rat(float(x.d)), "s": _rat(x.units.base_value), "ref": _rat(ref)})
+        except Exception:  # noqa: BLE001
+            num.append({"k": "raise"})
+        back()
+    for name in NUM_TO:
+        try:
+            x = uq(1.0, "m", registry=reg).in_mks().to(name)
+            num.append({"k": "num", "v": _rat(float(x.d)), "s": _rat(x.units.base_value), "ref": _rat(x.units.base_value)})
+        except Exception:  # noqa: BLE001
+            num.append({"k": "raise"})
+        back()
     reg._unit_system_id = s_id
-    return out
+    return out, num
 
 
 def _nsparts():
@@ -237,9 +310,22 @@ def _idof(R, reg):
     return -1
 
 
+def _regof(R, reg):
+    """Registry id a result's registry stands for: the object itself, else a known registry on the same table
+    (e.g. a restored shallow copy that travelled inside a pickled memo)."""
+    k = _idof(R, reg)
+    if k >= 0:
+        return k
+    for i, r in enumerate(R):
+        if r is not None and r.lut is getattr(reg, "lut", None):
+            return i
+    return -1
+
+
 def _snapshot_all(R):
     live = [r is not None for r in R]
-    rows, cache, lutof, cacheof, kind, dig = [], [], [], [], [], []
+    rows, cache, lutof, cacheof, kind, dig, num = [], [], [], [], [], [], []
+    g = _globals_snapshot()
     for i, r in enumerate(R):
         if r is None:
             rows.append([])
@@ -248,15 +334,20 @@ def _snapshot_all(R):
             cacheof.append(-1)
             kind.append("none")
             dig.append([])
+            num.append([])
             continue
         rows.append(_rows(r))
         cache.append([p in r._unit_object_cache for p in PROBES])
         lutof.append(min(j for j, q in enumerate(R) if q is not None and q.lut is r.lut))
         cacheof.append(min(j for j, q in enumerate(R) if q is not None and q._unit_object_cache is r._unit_object_cache))
         kind.append("default" if isinstance(r, _U["NonMod"]) else "custom")
-        dig.append(_digest(r))
-    out = {"live": live, "rows": rows, "cache": cache, "lutof": lutof, "cacheof": cacheof, "kind": kind, "dig": dig}
+        d, n = _digest(r)
+        dig.append(d)
+        num.append(n)
+        _globals_restore(g)
+    out = {"live": live, "rows": rows, "cache": cache, "lutof": lutof, "cacheof": cacheof, "kind": kind, "dig": dig, "num": num}
     out.update(_global_obs())
+    _globals_restore(g)
     return out
 
 
@@ -336,6 +427,20 @@ def step(R, e):
                 u = U["Unit"]("m", registry=reg)
                 new = (u**5).copy().registry  # "m**5" is in no string memo (the default registry's holds m**2, m**3 ...)
             obs = _new(R, e, new)
+        elif op == "picklereg":
+            if e["how"] == "registry":
+                new = pickle.loads(pickle.dumps(reg))
+            else:
+                new = pickle.loads(pickle.dumps(U["Unit"](e["str"], registry=reg))).registry
+            obs = _new(R, e, new)
+        elif op == "inbase":
+            x = U["uq"](1.0, e["str"], registry=reg).in_base(e["sys"])
+            if e["str2"]:
+                x = x.to(e["str2"])
+            rr = x.units.registry
+            known = _idof(R, rr)
+            # converted data may carry a shallow copy of reg (same table): report the registry it stands for
+            obs = {"k": "res", "r": known if known >= 0 else (e["r"] if rr.lut is reg.lut else -1)}
         elif op == "usys":
             U["nusys"] += 1
             U["UnitSystem"]("c13_us_%d" % U["nusys"], e["sym"], "kg", "s", registry=reg)
@@ -350,22 +455,22 @@ def step(R, e):
             src = R[e["r2"]]
             u = getattr(U["unyt"], e["str"]) if e["r2"] == 0 else U["Unit"](e["str"], registry=src)
             a = U["uarr"](U["np"].array([1.0, 2.0]), u, registry=reg, bypass_validation=bool(e["bypass"]))
-            obs = {"k": "res", "r": _idof(R, a.units.registry)}
+            obs = {"k": "res", "r": _regof(R, a.units.registry)}
         elif op == "convert":
             x = U["uarr"]([1.0, 2.0], e["str"], registry=reg)
             src = R[e["r2"]]
             u = getattr(U["unyt"], e["str2"]) if e["r2"] == 0 else U["Unit"](e["str2"], registry=src)
             how = e["how"]
             if how == "to":
-                obs = {"k": "res", "r": _idof(R, x.to(u).units.registry)}
+                obs = {"k": "res", "r": _regof(R, x.to(u).units.registry)}
             elif how == "in_units":
-                obs = {"k": "res", "r": _idof(R, x.in_units(u).units.registry)}
+                obs = {"k": "res", "r": _regof(R, x.in_units(u).units.registry)}
             elif how == "to_value":
                 x.to_value(u)
                 obs = {"k": "ok"}
             else:
                 x.convert_to_units(u)
-                obs = {"k": "res", "r": _idof(R, x.units.registry)}
+                obs = {"k": "res", "r": _regof(R, x.units.registry)}
         elif op == "binop":
             if not e["warm"]:
                 _clear_lru()
@@ -374,7 +479,7 @@ def step(R, e):
             res = a * b if e["fn"] == "mul" else a / b if e["fn"] == "div" else a + b
             # lreg / rreg: the registry objects the operands actually carry (a memoised unit belongs to the registry
             # object that first built it, which may be another handle on the same table)
-            obs = {"k": "res", "r": _idof(R, res.units.registry), "lreg": _idof(R, a.units.registry), "rreg": _idof(R, b.units.registry)}
+            obs = {"k": "res", "r": _regof(R, res.units.registry), "lreg": _regof(R, a.units.registry), "rreg": _regof(R, b.units.registry)}
         else:
             raise ValueError("unknown op " + op)
     except Exception as ex:  # noqa: BLE001
